@@ -128,6 +128,29 @@ def run_native(inst, inputs, timeout):
         V.Ctx.cur = old
 
 
+def run_native_clean(pid, tier, inst, inputs, timeout):
+    """native replay in a FRESH interpreter: used when the in-process replay does not confirm a counterexample, because state
+    leaked by the code under test (module / class level caches mutated during earlier symbolic paths) lives on in the worker"""
+    import subprocess
+    import tempfile
+
+    with tempfile.NamedTemporaryFile("w", suffix=".json", delete=False) as f:
+        json.dump(dict(property=pid, tier=tier, instance=inst.name, inputs=inputs), f)
+        path = f.name
+    try:
+        env = dict(os.environ, PYTHONDONTWRITEBYTECODE="1")
+        out = subprocess.run([sys.executable, "-B", os.path.join(VERIF, "replay.py"), path], capture_output=True, text=True, timeout=timeout + 60, env=env)
+        for line in out.stdout.splitlines():
+            if line.startswith("native result:"):
+                parts = line[len("native result:"):].strip().split(" ", 1)
+                return parts[0], (parts[1] if len(parts) > 1 else "") + " [clean interpreter]"
+        return "error", "clean replay produced no result: %s" % out.stderr[-200:]
+    except Exception as e:  # noqa: BLE001
+        return "error", "clean replay failed: %r" % (e,)
+    finally:
+        os.unlink(path)
+
+
 def explore_task(pid, tier, idx, prefix, seed):
     """explore the subtree below `prefix` of instance idx; returns a result dict"""
     t0 = time.time()
@@ -188,6 +211,10 @@ def explore_task(pid, tier, idx, prefix, seed):
             what, model = viol
             inputs = model_inputs(ctx, model)
             status, detail = run_native(inst, inputs, inst.native_timeout)
+            if status not in ("violated", "hang"):
+                s2, d2 = run_native_clean(pid, tier, inst, inputs, inst.native_timeout)
+                if s2 in ("violated", "hang", "exception"):
+                    status, detail = s2, d2
             res["violation"] = dict(what=what, inputs=inputs, native=status, native_detail=detail, prefix=list(p))
             break
         # validate sampled passing paths against the implementation
